@@ -14,6 +14,9 @@ import Glom.Model.C05
     5. the listing goes down to the failing spec and no further into what returned normally: after
        the last top-level `Spec:` line of a spine call, every further top-level `Spec:` line shows
        a call that raised or a completed step of a chain that raised.
+    6. after a failed branch is abandoned the trace follows the branch that really raised: only a
+       spec that raised shows branches (`+ Spec:`) — what failed inside a spec that then completed
+       normally (a matched Switch / Match-dict key, a completed chain step) is forgiven.
 -/
 namespace Glom.C05
 
@@ -192,6 +195,18 @@ def clause4 (calls sp : List CallInfo) (errText : Nat → Str) (rootError : Nat)
      | some e => isInfix (errText e) text
      | none => true)))
 
+/-- the `Spec:` text of a line that shows branches below it (gutter mark `+`) -/
+def plusSpec (l : Str) : Option Str :=
+  if (gutter l).2 == some '+' then afterLabel "Spec".toList l else none
+
+/-- 6. no stale branches: a spec that shows branches (`+ Spec:`) is a call that RAISED.  A spec that
+    completed normally has recovered from whatever failed inside it; listing that as its branches
+    — and the spec evaluated after it as one more of them — would not follow the branch that
+    really raised. -/
+def clause6 (calls : List CallInfo) (lines : List Str) : Bool :=
+  (lines.filterMap plusSpec).all (fun shown =>
+    calls.any (fun c => showsValue c.spec c.slen shown && c.result.isSome))
+
 /-- the clauses of the property, separately (for diagnosis); `checkC05` is their conjunction -/
 def clausesC05 (evs : List Ev) (errText : Nat → Str) (rootError : Nat) (text : String) : List Bool :=
   let calls := callsOf evs
@@ -204,7 +219,8 @@ def clausesC05 (evs : List Ev) (errText : Nat → Str) (rootError : Nat) (text :
       clause3 inner lines,
       clause4 calls sp errText rootError text.toList lines,
       -- 5. nothing that returned normally is listed below the failing spec
-      nothingReturnedBelow evs calls sp lines ]
+      nothingReturnedBelow evs calls sp lines,
+      clause6 calls lines ]
   | _, _ => [false]
 
 def rstrip (s : Str) : Str := (s.reverse.dropWhile (fun c => c == ' ' || c == '\n' || c == '\t')).reverse
